@@ -11,8 +11,8 @@ RULE = ("d <values> <hosts>: the value list is parsed by the real ACLDomainData:
         "Acl::SplayInserter<char*>::Merge into the Splay tree) and ACLDomainData::match is asked for every host in turn "
         "(each lookup splays the tree); the harness prints the Merge warnings, the tree shape after parse and after the lookups "
         "and one bit per host. m <flags> <host> <domain>: matchDomainName called directly (all four flag combinations). "
-        "Generators: every ordered list of <=2 (thorough: <=3) values of length <=3 over {a . -} and over {a A .} probed with every "
-        "host of length <=4 over the same alphabet; all permutations of related 4-5 value sets; random lists of up to 60 values "
+        "Generators: every ordered list of <=2 (thorough: <=3) values of length <=3 over {a . -} (and shorter scopes over {a A .}, "
+        "{a b .}) not beginning with two dots, probed with every host of length <=4 over the same alphabet; all permutations of related 4-5 value sets; random lists of up to 60 values "
         "drawn from a label tree (overlaps, duplicates, mixed case, leading dots, '-', '_', digits) probed with hosts derived from "
         "the values (the value, its root, sub/sub-sub domains, one-character neighbours, 'x-' + root, trailing dot, leading dot); "
         "byte-level mutations; a capped number of lists with values that begin with two dots (known finding). "
@@ -27,17 +27,20 @@ ASSUMPTIONS = ["values are the byte strings ConfigParser::strtokFile returns (no
                "of matchDomainName (src/anyp/Uri.h: HOST .foo.com / DOMAIN foo.com / YES); the oracle normalises hosts the same way",
                "C locale (xtolower folds A-Z only; the table is re-dumped from the running code)"]
 MANIFEST = {
-    "text": "partial: for every list of values none of which is '.' or begins with two dots, in any order and with duplicates or "
-            "overlaps, ACLDomainData::parse succeeds (no Assure, no dangling removal) and after any sequence of lookups match(host) "
-            "is true exactly when some value matches the host case-insensitively (a leading-dot value matches its domain and all "
-            "subdomains, any other value only itself) - theorem match_iff, for all byte strings; the splay operations preserve the "
-            "in-order sequence; matchDomainName is characterised as a three-way interval comparison for all inputs. Values that "
-            "begin with two dots break Merge (counterexample theorems; known finding C41-multi-dot-value)",
+    "text": "partial: for every list of non-empty values none of which begins with two dots (the single '.' included), in any order "
+            "and with duplicates or overlaps, ACLDomainData::parse succeeds (Merge terminates, no Assure, no dangling removal) and "
+            "after any sequence of lookups match(host) is true exactly when some value matches the host case-insensitively (a "
+            "leading-dot value matches its domain and all subdomains, any other value only itself) - theorem match_iff_partial, for "
+            "all byte strings, no size bound; matchDomainName is characterised for every host and value as a three-way comparison with "
+            "the value's key interval and ==0 iff the value matches; every splay step preserves the in-order sequence. Excluded and "
+            "refuted on the real code: values that begin with two dots (counterexample theorems; known finding C41-multi-dot-value: "
+            "lost values, heap-use-after-free in Merge, missed matches)",
     "note": "trusted: Lean kernel, the C++ harness (own self_destruct/debug sink), python oracle; modelled not verified: pointer "
-            "code of include/splay.h as an inductive tree (shapes compared with the real tree on every case), ConfigParser "
-            "tokenisation (only verbatim tokens are fed). The single value '.' is outside the proof (tested only)",
-    "technique": "Lean 4 proof (order theory on reversed folded keys, splay in-order preservation, Merge invariant) + xtolower table "
-                 "translator + ASan/UBSan differential run with exhaustive small scopes",
+            "code of include/splay.h as an inductive tree with link chains as lists (tree shapes after parse and after the lookups, "
+            "Merge warnings and verdicts are compared with the real code on every case), ConfigParser tokenisation (only verbatim "
+            "tokens are fed); hosts are compared without their leading dots (documented matchDomainName contract)",
+    "technique": "Lean 4 proof (lexicographic order on reversed folded keys, splay in-order/monotone-search lemmas, Merge invariant) "
+                 "+ xtolower table and behaviour-flag translator + ASan/UBSan differential run with exhaustive small scopes",
 }
 MAX_REPORT = 10
 MINIMISE_BUDGET = 150
@@ -360,8 +363,9 @@ def cases(rng, tier):
         yield from small_scope(b"a.-", 2, 4, 3)
         yield from small_scope(b"aA.", 2, 4, 2)
         yield from small_scope(b"ab.", 2, 4, 3)
-        yield from small_scope(b"a.-", 3, 4, 3, rng, 6000)
+        yield from small_scope(b"a.-", 3, 4, 3)          # every ordered triple (about 27 000 lists x 121 hosts)
         yield from small_scope(b"a_.0", 3, 3, 3, rng, 3000)
+        yield from small_scope(b"a.-", 3, 4, 4, rng, 3000)
     else:
         yield from small_scope(b"a.-", 2, 4, 2)
         yield from small_scope(b"a.-", 3, 4, 2, rng, 300)
